@@ -324,6 +324,30 @@ def ladder_paths(lib, f, slot_syms):
                     work.append((blk, k, nregs, tuple(stack), flags, nf, stored))
                 ended = True
                 break
+            if op in ("SUB64ri8", "SUB64ri32", "ADD64ri8", "ADD64ri32") and i.reg(0) == "RSP":
+                n = i.imm(2)
+                if n is None or n % 8 or n < 0:
+                    raise Unmodelled("stack adjustment by %r at %#x" % (n, i.addr))
+                if op.startswith("SUB"):
+                    stack += [("uninit",)] * (n // 8)
+                else:
+                    if n // 8 > len(stack):
+                        raise Unmodelled("stack released below the entry level at %#x" % i.addr)
+                    del stack[len(stack) - n // 8:]
+                flags = ("unk",)
+                continue
+            if op in ("MOV64mr", "MOV64rm") and i.memop() and i.memop()[0] == "RSP" and not i.memop()[2]:
+                off = i.memop()[3] or 0
+                if off % 8 or off < 0 or off // 8 >= len(stack):
+                    raise Unmodelled("stack slot [rsp%+d] outside the dispatcher's own frame at %#x" % (off, i.addr))
+                slot = len(stack) - 1 - off // 8
+                if op == "MOV64mr":
+                    stack[slot] = regs.get(x86.PARENT[i.reg(5)], ("entry", i.reg(5)))
+                else:
+                    if stack[slot] == ("uninit",):
+                        raise Unmodelled("read of an unwritten stack slot at %#x" % i.addr)
+                    regs[x86.PARENT[i.reg(0)]] = stack[slot]
+                continue
             if op in ("MOV64mr",):
                 m = i.memop()
                 if m and m[0] == "RIP" and i.rel:
